@@ -113,6 +113,24 @@ Section Laws.
       + destruct (Nat.ltb 1 (count t me)); [reflexivity | apply IH].
   Qed.
 
+  (* per occurrence: 'insert_file "name"' written in file g is the '.byte' data of the file that the
+     name resolves to from g ([blob g name]) -- in the whole program, wherever g is compiled from *)
+  Lemma insert_at_bytes (blob : fid -> nat -> list Z) src g pre nm post :
+    src g = pre ++ SInsertAt nm :: post ->
+    blob g nm <> [] -> Forall (fun b => 0 <= b < 256) (blob g nm) ->
+    forall fuel f a t,
+      compile_file (elab_table P blob src) fuel f a t
+      = compile_file (elab_table P blob (upd P src g (pre ++ SStmt (Byte (blob g nm)) :: post))) fuel f a t.
+  Proof.
+    intros Hg Hne Hb. induction fuel as [|k IH]; intros f a t; [reflexivity|].
+    cbn [Structure.compile_file]. unfold elab_table at 2 4. unfold upd at 2.
+    destruct (Nat.eqb f g) eqn:E.
+    - apply Nat.eqb_eq in E. subst f. rewrite Hg. rewrite !map_app. cbn [map elab].
+      rewrite (insert_bytes _ g (map (elab P blob g) pre) (map (elab P blob g) post) (blob g nm) Hne Hb).
+      apply block_ext. exact IH.
+    - apply block_ext. exact IH.
+  Qed.
+
   (* an empty inserted file contributes nothing (while '.byte' without operands is one zero byte) *)
   Lemma insert_empty rec me (pre post : list stmt) :
     forall a t, block rec me (pre ++ Insert [] :: post) a t = block rec me (pre ++ post) a t.
